@@ -45,6 +45,8 @@ type Case struct {
 	ID    string    `json:"id"`
 	Attrs []AbsAttr `json:"attrs,omitempty"` // a TLC case: one attribute tree placed at every site
 	Rand  int64     `json:"rand,omitempty"`  // a seeded case: random document, random tree per site
+	Bulk  int       `json:"bulk,omitempty"`  // a bulk case: this many records, each with distinct strings numbered from Base
+	Base  int       `json:"base,omitempty"`
 	CSeed int64     `json:"cseed"`           // seed of the concretisation of the abstract strings
 }
 
